@@ -1,6 +1,7 @@
 package main
 
 import (
+	"strings"
 	"encoding/json"
 	"fmt"
 	"math/rand"
@@ -231,6 +232,12 @@ func init() {
 					}
 				}
 				sc.Steps = append(sc.Steps, st)
+			}
+			if strings.HasPrefix(sc.Fan.Kind, "file") && r.Intn(3) == 0 {
+				// the file fan's PWM file is still empty when regulation begins (the service providing it writes its first value
+				// a moment later); from the second cycle on it reads normally
+				sc.Steps[0].Intrude, sc.Steps[0].Mid = nil, nil
+				sc.Steps[0].Fault = &FaultSpec{Target: "pwm", Op: "r", Action: "content", Raw: ""}
 			}
 			if i < 2 {
 				ctx.SampleKind("random", map[string]interface{}{"kind": "random", "fan": sc.Fan, "map": sc.Map.Kind, "loop": sc.Loop, "cycles": 120})
